@@ -26,6 +26,7 @@ func init() {
 		ruleV9(c, "C11.V9")
 		ruleL2(c, "C11.V10")
 		ruleL4(c, "C11.V11")
+		ruleKind(c, "C11.V12")
 	}
 }
 
@@ -823,6 +824,117 @@ func ruleV8(c *Ctx, id string) {
 					}
 				}
 				R.Check(ok, id, key, P.Pos(pn.Pos()), "an explicit panic reachable from a handler has a recorded invariant that excludes it", why, "new explicit panic reachable from a request handler: one request can kill the whole server process")
+			}
+		}
+	}
+}
+
+// ruleKind: the content of an object named by a client handle may be changed
+// only when it is a regular file.
+func ruleKind(c *Ctx, id string) {
+	V, P, R := c.V, c.P, c.R
+	R.Rule(id, "only regular files have client-settable content: in the handlers every Inode.Write / Inode.Resize whose receiver was obtained from a client file handle is dominated by Kind == NF3REG on that inode", 2)
+	if V.Resize == nil || V.InodeWrite == nil || V.GetInodeFh == nil {
+		return
+	}
+	reg := constOfPkg(P, "nfstypes", "NF3REG")
+	// producers of an inode value: (call, result index) pairs, through phis, cells and conversions
+	type prod struct {
+		call *ssa.Call
+		idx  int
+	}
+	producers := func(v ssa.Value) []prod {
+		var out []prod
+		seen := map[ssa.Value]bool{}
+		var walk func(v ssa.Value)
+		walk = func(v ssa.Value) {
+			if v == nil || seen[v] {
+				return
+			}
+			seen[v] = true
+			switch x := v.(type) {
+			case *ssa.Phi:
+				for _, e := range x.Edges {
+					walk(e)
+				}
+			case *ssa.Convert:
+				walk(x.X)
+			case *ssa.ChangeType:
+				walk(x.X)
+			case *ssa.Extract:
+				if cl, ok := x.Tuple.(*ssa.Call); ok {
+					out = append(out, prod{cl, x.Index})
+				}
+			case *ssa.Call:
+				out = append(out, prod{x, 0})
+			case *ssa.UnOp:
+				if x.Op == token.MUL {
+					if al, ok := x.X.(*ssa.Alloc); ok {
+						for _, in := range refs(al) {
+							if st, ok := in.(*ssa.Store); ok && st.Addr == al {
+								walk(st.Val)
+							}
+						}
+					}
+				}
+			}
+		}
+		walk(v)
+		return out
+	}
+	var fromHandleD func(v ssa.Value, depth int) bool
+	fromHandleD = func(v ssa.Value, depth int) bool {
+		for _, p := range producers(v) {
+			cal := p.call.Call.StaticCallee()
+			if cal == V.GetInodeFh {
+				return true
+			}
+			if cal == nil || depth > 1 || relPkg(cal) != "nfs" || cal.Blocks == nil {
+				continue
+			}
+			// a helper of the server package: what it returns at that position
+			for _, b := range cal.Blocks {
+				if r, ok := b.Instrs[len(b.Instrs)-1].(*ssa.Return); ok && p.idx < len(r.Results) {
+					if fromHandleD(r.Results[p.idx], depth+1) {
+						return true
+					}
+				}
+			}
+		}
+		return false
+	}
+	fromHandle := func(v ssa.Value) bool { return fromHandleD(v, 0) }
+	kindGuard := func(fn *ssa.Function, at *ssa.BasicBlock, subj ssa.Value) bool {
+		return guardedBy(fn, at, func(cd Cond) (bool, bool) {
+			n, fl, base, _ := loadedField(cd.X)
+			k, isk := constInt(cd.Y)
+			if n != V.Inode || fl != "Kind" || !isk || k != reg || base != stripConv(subj) {
+				return false, false
+			}
+			switch cd.Op {
+			case token.EQL:
+				return true, true
+			case token.NEQ:
+				return true, false
+			}
+			return false, false
+		})
+	}
+	for _, h := range V.NfsProcs {
+		for _, sc := range scopesOf(h) {
+			for _, call := range P.CallsIn(sc.Fn, funcIs(V.Resize, V.InodeWrite)) {
+				recv := recvOf(call)
+				top := sc.S.resolve(recv)
+				if !fromHandle(top) {
+					continue
+				}
+				R.Analysed[FuncName(h)] = true
+				ok := kindGuard(sc.Fn, call.Block(), recv)
+				if !ok && sc.Via != nil {
+					ok = kindGuard(sc.Via.Parent(), sc.Via.Block(), top)
+				}
+				what := staticCallee(call).Name()
+				R.Check(ok, id, fmt.Sprintf("%s|%s on a handle's inode is for regular files only", h.Name(), what), P.Pos(call.Pos()), "Inode."+what+" on an inode obtained from the client's handle is dominated by Kind == NF3REG", "guarded", "a client can set the size / content of a directory or symlink through its handle: a truncated directory crashes the next scan in the entry decoder (with the directory locked) and orphans its entries")
 			}
 		}
 	}
